@@ -20,6 +20,7 @@ import (
 
 	"github.com/pingcap/log"
 	"github.com/tikv/pd/pkg/btree"
+	"github.com/tikv/pd/pkg/codec"
 	"github.com/tikv/pd/pkg/mock/mockid"
 	"github.com/tikv/pd/server/cluster"
 	"github.com/tikv/pd/server/config"
@@ -348,6 +349,8 @@ func (o rop) coq() string {
 	switch o.K {
 	case "set":
 		return "OSet " + o.R.Coq()
+	case "droprace": // the heartbeat that slips in, then the removal of the (current) cached region
+		return "OSet " + o.p.Coq() + fmt.Sprintf("; ORemove %d", o.ID)
 	case "hbrace": // two operations of the model: the overtaking heartbeat, then the parked one
 		return "OSet " + o.p2.Coq() + "; OSet " + o.p.Coq()
 	case "remove":
@@ -480,6 +483,33 @@ func (w *world) hbRace(o *rop) string {
 	return "RoRegs []; RoRegs []"
 }
 
+// dropRace: RaftCluster.DropCacheRegion(o.ID) is started while the harness holds the write lock of its facade, so it has to wait at
+// c.RLock(); meanwhile a heartbeat of the same region that changes its peers (o.R) is processed through the other facade; then the
+// lock is released.  DropCacheRegion removes the region that is cached when it holds the lock, so the outcome is SetRegion(R);
+// RemoveRegion(cached region of the id).
+func (w *world) dropRace(o *rop) string {
+	rig := w.rig()
+	b := core.RegionFromHeartbeat(o.R.Heartbeat())
+	pb := c07x.Project(b)
+	o.p = &pb
+	done := make(chan interface{}, 1)
+	rig.a.Lock()
+	go func() {
+		defer func() { done <- recover() }()
+		rig.a.DropCacheRegion(o.ID)
+	}()
+	time.Sleep(3 * time.Millisecond) // the dropper is now waiting for the facade's lock (whatever it did before asking for it)
+	errB := rig.b.VerifC06ProcessRegionHeartbeat(b)
+	rig.a.Unlock()
+	if e := <-done; e != nil {
+		panic(e)
+	}
+	if errB != nil {
+		return "RoBad \"heartbeat rejected\"; RoUnit"
+	}
+	return "RoRegs []; RoUnit"
+}
+
 // exec runs one op on the real RegionsInfo.  A nil dereference inside SetRegion / RemoveRegion on the malformed stream is an
 // observation the model predicts (RemoveRegion(nil)); every other panic of the real code is a failing input.
 func (w *world) exec(o *rop) (obs string) {
@@ -504,6 +534,11 @@ func (w *world) exec(o *rop) (obs string) {
 		// (once per object: a helper that is not read-only would otherwise compound its damage on every call)
 		_ = core.RegionToHexMeta(info.GetMeta()).String()
 		_ = info.GetMeta().String()
+		// ... and the key helpers of pkg/codec that the merge checker applies to the keys of cached regions
+		_ = codec.Key(info.GetStartKey()).TableID()
+		_ = codec.Key(info.GetEndKey()).TableID()
+		_, _ = codec.Key(info.GetStartKey()).MetaOrTable()
+		_, _ = codec.Key(info.GetEndKey()).MetaOrTable()
 		for _, x := range ov {
 			if x != nil {
 				_ = core.RegionToHexMeta(x.GetMeta()).String()
@@ -519,6 +554,8 @@ func (w *world) exec(o *rop) (obs string) {
 		return "RoRegs " + s
 	case "hbrace":
 		return w.hbRace(o)
+	case "droprace":
+		return w.dropRace(o)
 	case "remove":
 		if g := ri.GetRegion(o.ID); g != nil {
 			ri.RemoveRegion(g)
@@ -1002,6 +1039,7 @@ func genRI(r *rng.R, a c07x.Alphabet, nmut int, malformed bool) riCase {
 	}
 	if !malformed {
 		g.heartbeatRace()
+		g.dropRacePhase()
 		if d := g.roleFlips(400); d != "" {
 			c.totals = d
 		}
@@ -1215,6 +1253,72 @@ func (g *riGen) heartbeatRace() {
 	for st := 1; st <= g.stores+1; st++ {
 		g.step(rop{K: "counts", Store: uint64(st)})
 	}
+}
+
+// dropRacePhase: an admin request DropCacheRegion of a cached region overlapping in time with a heartbeat of that region which moves
+// one of its peers to another store (same range, conf_ver + 1); afterwards the region must be gone from every index.
+func (g *riGen) dropRacePhase() {
+	x, ok := g.someCached()
+	if !ok || g.dead || len(x.Peers) < 2 || x.Start >= x.End && x.End != "" || x.Leader == 0 {
+		return
+	}
+	b := x.Clone()
+	moved := -1
+	for i, p := range b.Peers {
+		if p.ID != b.Leader {
+			moved = i
+		}
+	}
+	if moved < 0 {
+		return
+	}
+	b.Peers[moved].Store = uint64(g.stores + 1) // a store the region has no peer on
+	b.Peers[moved].ID += 5000
+	b.Pending = nil
+	b.ConfVer, b.Size, b.Stamp = x.ConfVer+1, x.Size+9, g.nextStamp()
+	g.step(rop{K: "droprace", ID: x.ID, R: &b})
+	delete(g.cached, x.ID)
+	g.c.tags["phase:drop-cache-region-race"]++
+	g.step(rop{K: "global"})
+	g.step(rop{K: "get", ID: x.ID})
+	for st := 1; st <= g.stores+1; st++ {
+		g.step(rop{K: "counts", Store: uint64(st)})
+		g.step(rop{K: "storeregions", Store: uint64(st)})
+	}
+}
+
+// tableKeysCase: region keys in TiDB's memcomparable table format (two encoding groups and more), as the merge checker with
+// cross-table merge disabled sees them; the read-only key helpers of pkg/codec run on every cached key (observers in `set`),
+// then every lookup is compared as usual.
+func tableKeysCase(seed uint64) riCase {
+	c := riCase{Kind: "ri", tags: map[string]int{"directed:table-encoded-keys": 1}}
+	r := rng.New(seed)
+	g := &riGen{r: r, a: c07x.Small(), w: &world{ri: core.NewRegionsInfo()}, c: &c, stores: 3, cached: map[uint64]c07x.Region{}}
+	var bounds []string
+	for t := int64(1); t <= 6; t++ {
+		bounds = append(bounds, string(codec.EncodeBytes(codec.GenerateTableKey(t))))
+		bounds = append(bounds, string(codec.EncodeBytes(codec.GenerateRowKey(t, 100+t))))
+	}
+	sort.Strings(bounds)
+	g.a.Probes = append([]string{""}, bounds...)
+	for _, b := range bounds {
+		g.a.Probes = append(g.a.Probes, b+"\x01")
+	}
+	sort.Strings(g.a.Probes)
+	for i := 0; i+1 < len(bounds); i++ {
+		id := uint64(i + 1)
+		x := c07x.Region{ID: id, Start: bounds[i], End: bounds[i+1], Peers: []c07x.Peer{{ID: id*10 + 1, Store: 1}, {ID: id*10 + 2, Store: 2}, {ID: id*10 + 3, Store: 3}},
+			Leader: id*10 + uint64(1+i%3), Size: int64(2 + i), Ver: 1, ConfVer: 1, Term: 1, Stamp: g.nextStamp()}
+		g.put(x)
+		if i%3 == 2 {
+			g.queries(true)
+		}
+	}
+	// a merge of two neighbours and a refresh
+	m := c07x.Region{ID: 2, Start: bounds[1], End: bounds[3], Peers: []c07x.Peer{{ID: 21, Store: 1}, {ID: 22, Store: 2}, {ID: 23, Store: 3}}, Leader: 21, Size: 9, Ver: 2, ConfVer: 1, Term: 1, Stamp: g.nextStamp()}
+	g.put(m)
+	g.queries(true)
+	return c
 }
 
 // mergeSizeCase: the first heartbeats of a merged region report size 0 / 1: a put that swallows its neighbour and carries no
@@ -1601,6 +1705,7 @@ func main() {
 			emitRI(c)
 		}
 		emitRI(bigTreeReaders(*seed))
+		emitRI(tableKeysCase(*seed))
 		emitRI(bigScanCase(*seed, 1080)) // more regions than 1024; the case above 2048 regions runs in the thorough tier (its replay in Coq takes about a minute)
 		emitRI(mergeSizeCase(0))
 		emitRI(mergeSizeCase(1))
